@@ -62,6 +62,7 @@ fn main() {
     let mut events = String::new();
     let mut journal: Option<String> = None;
     let mut tier = "quick".to_string();
+    let mut scratch = String::new();
     let mut i = 2;
     while i < args.len() {
         let v = args.get(i + 1).cloned().unwrap_or_default();
@@ -72,6 +73,7 @@ fn main() {
             "--events" => events = v,
             "--journal" => journal = Some(v),
             "--tier" => tier = v,
+            "--scratch" => scratch = v,
             _ => {}
         }
         i += 2;
@@ -91,6 +93,7 @@ fn main() {
             "C05r" => p_sentence::run_c05r(&mut ctx, from, to),
             "C05h" => p_sentence::run_c05h(&mut ctx, from, to),
             "C08f" => p_sentence::run_c08f(&mut ctx, from, to),
+            "C13m" => trained_models(&mut ctx, from, to, &scratch, &events),
             w => {
                 eprintln!("unknown workload {w}");
                 std::process::exit(64);
@@ -304,4 +307,58 @@ fn kytea_in_this_build(ctx: &mut Ctx, seed: u64, k: u64) {
         Ok(Err(e)) => ctx.violation("C13:kytea_conversion_failed_in_this_build", J::obj(vec![("features", J::s(features())), ("error", J::s(&e)), ("file_hex", J::hex(&bytes[..bytes.len().min(4096)]))])),
         Err(p) => ctx.violation(&format!("C13:panicked_in_this_build:{}", panic_site(&p)), J::obj(vec![("features", J::s(features())), ("panic", J::s(&p)), ("what", J::s("converted KyTea model"))])),
     }
+}
+
+/// Models trained by the real trainer (written to `<scratch>/trained-<k>.bin` by vmon's C13t workload,
+/// together with their evaluation texts) are analysed in this build; the driver compares the traces.
+fn trained_models(ctx: &mut Ctx, from: u64, to: u64, scratch: &str, events: &str) {
+    let mut trace = std::io::BufWriter::new(std::fs::File::create(format!("{events}.trace")).expect("trace"));
+    for k in from..to {
+        ctx.begin_case(k);
+        let Ok(blob) = std::fs::read(format!("{scratch}/trained-{k}.bin")) else {
+            ctx.count("trained_model_files_missing(training_returned_an_error)", 1);
+            continue;
+        };
+        let rd = |at: &mut usize| -> usize {
+            let v = u32::from_le_bytes(blob[*at..*at + 4].try_into().unwrap()) as usize;
+            *at += 4;
+            v
+        };
+        let mut at = 0usize;
+        let mlen = rd(&mut at);
+        let model_bytes = blob[at..at + mlen].to_vec();
+        at += mlen;
+        let n_texts = rd(&mut at);
+        let mut texts = vec![];
+        for _ in 0..n_texts {
+            let l = rd(&mut at);
+            texts.push(String::from_utf8(blob[at..at + l].to_vec()).expect("utf8"));
+            at += l;
+        }
+        let r = guard(|| -> Result<Vec<String>, String> {
+            let (model, _) = Model::read_slice(&model_bytes).map_err(|e| format!("{e}"))?;
+            let p = Predictor::new(model, false).map_err(|e| format!("{e}"))?;
+            let mut lines = vec![];
+            for (ti, t) in texts.iter().enumerate() {
+                let mut s = Sentence::from_raw(t.clone()).map_err(|e| format!("{e}"))?;
+                p.predict(&mut s);
+                let lb: Vec<u8> = s.boundaries().iter().map(|&b| label_of(b)).collect();
+                lines.push(format!("{} {} {:016x} {:016x} {:016x}", k, ti, fnv(format!("{:?}", s.boundary_scores()).as_bytes()), fnv(&lb), 0u64));
+            }
+            Ok(lines)
+        });
+        ctx.eval(1);
+        match r {
+            Ok(Ok(lines)) => {
+                ctx.count("trained_model_predictions_traced", lines.len() as u64);
+                for l in &lines {
+                    let _ = writeln!(trace, "{l}");
+                }
+                ctx.nontrivial(fnv(&model_bytes));
+            }
+            Ok(Err(e)) => ctx.violation("C13:trained_model_rejected_in_this_build", J::obj(vec![("features", J::s(features())), ("error", J::s(&e))])),
+            Err(p) => ctx.violation(&format!("C13:panicked_in_this_build:{}", panic_site(&p)), J::obj(vec![("features", J::s(features())), ("panic", J::s(&p)), ("what", J::s("trained model"))])),
+        }
+    }
+    let _ = trace.flush();
 }
